@@ -60,8 +60,19 @@ pub fn kit<B: FA, H: HA<B>>(depth: u8, equal: bool, seed: u8) -> Arc<Kit<H>> {
         return k.clone().downcast::<Kit<H>>().expect("kit type");
     }
     let n = 1usize << depth;
+    // seeds 7, 15, 23, ..: every third leaf is the all-zero digest (`Digest::default()`, a legal leaf value
+    // that padded leaf vectors contain)
+    let zeros = seed % 8 == 7;
     let leaves: Vec<H::Digest> = (0..n)
-        .map(|i| if equal { H::hash(&[seed, 0xEE]) } else { H::hash(&[seed, i as u8, (i >> 8) as u8, 0x4c]) })
+        .map(|i| {
+            if zeros && i % 3 == 0 {
+                H::Digest::default()
+            } else if equal {
+                H::hash(&[seed, 0xEE])
+            } else {
+                H::hash(&[seed, i as u8, (i >> 8) as u8, 0x4c])
+            }
+        })
         .collect();
     let naive = NaiveTree::build(&leaves, &merge_fn::<H>);
     let tree = MerkleTree::<H>::new(leaves).expect("power-of-two leaves");
@@ -733,6 +744,13 @@ fn adjacency_label(idx: &[usize]) -> &'static str {
 /// the case (`order` = bit set of order ids). A failure that is not the from_paths-unsorted one is
 /// reported in preference, so that class cannot mask anything else in the same case.
 fn ex_positive<B: FA, H: HA<B>>(c: &ExCase, obs: &mut Obs) -> CheckResult {
+    // the same subset over the tree whose every third leaf is the all-zero digest
+    {
+        let kz = kit::<B, H>(c.depth, c.equal_leaves, 7);
+        let oc = ExCase { order: 0, ..c.clone() };
+        let idx = positions_of(&oc);
+        positive::<B, H>(&kz, &idx, &Flags { skip_unsorted_repack: false, verify_singles: false }, obs).map_err(|f| Fail::new(format!("zero-leaves/{}", f.key), f.msg))?;
+    }
     let k = kit::<B, H>(c.depth, c.equal_leaves, 0);
     obs.label(format!("depth={}", c.depth));
     obs.nontrivial();
@@ -890,6 +908,104 @@ fn sample_valid(c: &SampleCase) -> bool {
         && c.idx.iter().collect::<BTreeSet<_>>().len() == c.idx.len()
 }
 
+// OPENINGS OF DEEP TREES (depth up to 63) WITHOUT MATERIALISING THEM
+// ================================================================================================
+
+#[derive(Serialize, Deserialize, Clone, Debug)]
+pub struct DeepCase {
+    pub hasher: u8,
+    /// depth of the real subtree that holds the opened leaves (1..=4)
+    pub sub_depth: u8,
+    pub mask: u16,
+    /// depth of the whole (virtual) tree, sub_depth + 1 ..= 63
+    pub total_depth: u8,
+    /// for every level above the subtree: is the subtree's ancestor the right child there
+    pub bits: u64,
+}
+
+fn deep_one<B: FA, H: HA<B>>(c: &DeepCase, obs: &mut Obs) -> CheckResult {
+    let name = H::full_name();
+    let d0 = c.sub_depth.clamp(1, 4);
+    let total = c.total_depth.clamp(d0 + 1, 63);
+    let k = kit::<B, H>(d0, false, 0);
+    let n0 = 1usize << d0;
+    let mask = (c.mask as usize % ((1usize << n0) - 1)) + 1;
+    let idx0: Vec<usize> = (0..n0).filter(|i| (mask >> i) & 1 == 1).collect();
+    let h = (total - d0) as usize;
+    obs.label(match total {
+        0..=30 => "depth<=30",
+        31 => "depth=31",
+        32 => "depth=32",
+        33..=62 => "depth=33..62",
+        _ => "depth=63",
+    });
+    obs.nontrivial_if(idx0.len() > 1);
+    // the tree above the subtree: one sibling digest per level; the path of every opened leaf is its path in
+    // the real subtree followed by these siblings; the root follows by merging upwards (definition)
+    let sib: Vec<H::Digest> = (0..h).map(|l| H::hash(&[0xD0, l as u8, c.bits as u8, (c.bits >> 8) as u8, d0])).collect();
+    let mut root = *k.naive.root();
+    let mut prefix = 0usize;
+    for (l, s) in sib.iter().enumerate() {
+        if (c.bits >> l) & 1 == 0 {
+            root = merge_fn::<H>(&root, s);
+        } else {
+            root = merge_fn::<H>(s, &root);
+            prefix |= 1usize << (d0 as usize + l);
+        }
+    }
+    let positions: Vec<usize> = idx0.iter().map(|p| prefix | p).collect();
+    let paths: Vec<Vec<H::Digest>> = idx0
+        .iter()
+        .map(|p| {
+            let mut v = k.naive.path(*p);
+            v.extend(sib.iter().cloned());
+            v
+        })
+        .collect();
+    for (p, path) in positions.iter().zip(paths.iter()) {
+        let v = catch(|| MerkleTree::<H>::verify(root, *p, path)).map_err(|pn| fail_panic("deep/verify", &pn))?;
+        ensure!(v.is_ok(), "deep/verify/err", "{name}: depth {total}: the path of position {p} does not verify: {v:?}");
+    }
+    let batch = catch(|| BatchMerkleProof::<H>::from_paths(&paths, &positions)).map_err(|pn| fail_panic("deep/from_paths", &pn))?;
+    ensure!(batch.depth == total, "deep/from_paths/depth", "{name}: from_paths reports depth {} for paths of depth {total}", batch.depth);
+    let r = catch(|| MerkleTree::<H>::verify_batch(&root, &positions, &batch)).map_err(|pn| fail_panic("deep/verify_batch", &pn))?;
+    ensure!(r.is_ok(), "deep/verify_batch/err", "{name}: depth {total}, positions {positions:?}: the batch opening built from verifying paths does not verify: {r:?}");
+    let gr = catch(|| batch.get_root(&positions)).map_err(|pn| fail_panic("deep/get_root", &pn))?;
+    ensure!(gr.as_ref().ok() == Some(&root), "deep/get_root", "{name}: depth {total}: get_root differs from the root the paths resolve to");
+    let back = catch(|| to_proof::<H>(&to_op(&batch)).into_paths(&positions))
+        .map_err(|pn| fail_panic("deep/into_paths", &pn))?
+        .map_err(|e| Fail::new("deep/into_paths/err", format!("{name}: depth {total}, positions {positions:?}: into_paths failed on a verifying opening: {e}")))?;
+    ensure!(back == paths, "deep/into_paths/paths", "{name}: depth {total}: into_paths does not return the paths the opening was built from");
+    Ok(())
+}
+
+pub struct Deep;
+
+impl SubCheck for Deep {
+    type Case = DeepCase;
+    fn name(&self) -> String {
+        "deep-virtual".into()
+    }
+    fn cases(&self, tier: Tier) -> u64 {
+        tier.pick(12_000, 200_000)
+    }
+    fn rule(&self) -> String {
+        "openings of trees of depth 2..63 that are never materialised: the opened leaves sit in a real subtree of depth 1..4 (every non-empty subset), every level above contributes one sibling digest and a left/right choice; paths = naive subtree path + siblings, root by definition; oracle: every path verifies, from_paths gives an opening of that depth that verifies (verify_batch, get_root) and decompresses (into_paths) to the same paths; non-trivial = more than one position".into()
+    }
+    fn required_labels(&self, _t: Tier) -> Vec<String> {
+        ["depth<=30", "depth=31", "depth=32", "depth=33..62", "depth=63"].iter().map(|s| s.to_string()).collect()
+    }
+    fn strategy(&self, _tier: Tier) -> BoxedStrategy<DeepCase> {
+        let depth = prop_oneof![3 => 2u8..=30, 2 => Just(31u8), 2 => Just(32u8), 3 => 33u8..=62, 1 => Just(63u8)];
+        (0u8..6, 1u8..=4, any::<u16>(), depth, any::<u64>())
+            .prop_map(|(hasher, sub_depth, mask, total_depth, bits)| DeepCase { hasher, sub_depth, mask, total_depth, bits })
+            .boxed()
+    }
+    fn check(&self, c: &DeepCase, obs: &mut Obs) -> CheckResult {
+        with_hasher!(c.hasher, deep_one(c, obs))
+    }
+}
+
 pub struct SampledPos {
     skip_unsorted_repack: bool,
 }
@@ -906,7 +1022,7 @@ impl SubCheck for SampledPos {
         30
     }
     fn rule(&self) -> String {
-        "trees of depth 5..12 over all six hashers (leaves distinct 4:1 all-equal), position sets of size 1..255 shaped as adjacent run / sibling pairs / all-left / one per subtree / uniform / single edge position, sorted or shuffled: the positive oracle of the exhaustive sub-check; non-trivial = more than one position; distinct by (hasher, depth, leaves, positions in order)".into()
+        "trees of depth 5..12 over all six hashers (leaves distinct 4:1 all-equal; every eighth tree has the all-zero digest as every third leaf), position sets of size 1..255 shaped as adjacent run / sibling pairs / all-left / one per subtree / uniform / single edge position, sorted or shuffled: the positive oracle of the exhaustive sub-check; non-trivial = more than one position; distinct by (hasher, depth, leaves, positions in order)".into()
     }
     fn required_labels(&self, _t: Tier) -> Vec<String> {
         let mut v: Vec<String> = ["adjacent-run", "sibling-pairs", "all-left", "one-per-subtree", "uniform", "single"].iter().map(|s| format!("shape={s}")).collect();
@@ -1082,6 +1198,7 @@ pub fn run(run: &mut Run) {
     // ---- sampled, depth 5..12 ----------------------------------------------------------------
     let f11_known = run.is_known("exhaustive-openings/from_paths-unsorted/does-not-verify") || run.is_known("sampled-openings/from_paths-unsorted/does-not-verify");
     run.sub(&SampledPos { skip_unsorted_repack: f11_known });
+    run.sub(&Deep);
     // kinds with a recorded finding are left to the enumerations above (which do not shrink)
     let kinds: Vec<&'static str> = BATCH_KINDS
         .iter()
